@@ -39,6 +39,22 @@ def run(ctx):
         c = cases[idx[j]]
         ctx.broken.append("trace acceptance: a step of the real denied-key table (max=%d) is not a step of Denied.v: stream %d style %d first steps %s"
                           % (c["max"], c["stream"], c["style"], json.dumps(c["steps"][:3])[:600]))
+    # concurrent recorders + a scraper on one Metrics: at every join the report must still be exact / never overstate
+    conc = {"rounds": 0, "events": 0, "scrapes": 0}
+    for table, threads, rounds, events in ([(100, 8, 3, 4000), (3, 8, 2, 4000), (100, 32, 2, 1000)] if ctx.tier == "quick" else [(100, 8, 10, 20000), (3, 8, 6, 20000), (100, 32, 6, 5000), (10000, 16, 6, 10000), (0, 8, 2, 5000)]):
+        o = C.run_harness(ctx, bins["metrics"], ["--mode", "threads", "--seed", ctx.seed + threads, "--table", table, "--rounds", rounds, "--threads", threads, "--events", events])
+        for l in o.splitlines():
+            if not l.startswith("{"):
+                continue
+            d = json.loads(l)
+            conc["rounds"] += 1
+            conc["events"] += d["events"]
+            conc["scrapes"] += d.get("scrapes", 0)
+            if d.get("top_oracle", "ok") != "ok":
+                ctx.violations.append({"what": "C16 under concurrent recorders: " + d["top_oracle"],
+                                       "input": {"harness": "metrics --mode threads", "table": table, "threads": threads, "events_per_thread": events, "round": d["round"], "seed": ctx.seed + threads,
+                                                 "history": "every thread records a PRNG list of allowed/denied/error events over 10 short keys while one thread reads export_prometheus(); all recorders joined before the report is read"}})
+                break
     out = C.run_harness(ctx, bins["metrics"], ["--mode", "escape", "--seed", ctx.seed, "--cases", nesc])
     esc = [json.loads(l) for l in out.splitlines() if l.startswith("{")]
     eterms = []
@@ -55,9 +71,10 @@ def run(ctx):
         "rule": "denial streams (few keys incl. empty / 256-byte / 257-byte / multi-byte-at-the-limit / quote / line-break keys; unbounded distinct keys; a heavy hitter arriving late; "
                 "ties around the eviction threshold) against trackers built with requested sizes 0,1,2,3,10,100,10000,10^6; table snapshot after every update; for sizes <= 3 every step is "
                 "checked in Coq against the model relation (eviction survivor choice and tie order are the implementation's); label escaping on keys of 0..11 PRNG code points biased to controls, "
-                "quotes, backslashes, C1 controls, line/paragraph separators, astral plane",
+                "quotes, backslashes, C1 controls, line/paragraph separators, astral plane; "
+                "8-32 OS threads recording denials over 10 short keys while another thread scrapes: after every join the report is compared with the denials recorded (exact for tables >= 10, never above for table 3)",
         "samples": [{"requested": cases[0]["requested"], "first_steps": cases[0]["steps"][:2]}] + [{"key": esc[0]["key"], "escaped": esc[0]["escaped"]}] if cases and esc else [],
-        "input_distribution": dist,
+        "input_distribution": dict(dist, concurrent=conc),
         "traces_validated_against_impl": len(terms) - len(mism) + len(esc) - len(m2),
         "model_impl_disagreements": len(mism) + len(m2),
     })
